@@ -119,6 +119,17 @@ def corr_rhs(res, a, stmts, where, case):
         res.corr_disagreements += 1
         res.violation("correspondence", f"{where}: left-hand sides {got_lhs[:6]}.. differ from the species order {lhs_expected[:6]}..", case)
         return
+    # exact text of the species rows (those without a modifier factor): the theorem rhs_text_is_mass_action is about
+    # this very string; only the generator's own list (channel A) is unwrapped text
+    if where.startswith("channel A") and getattr(a, "m_rowtext", None) is not None:
+        for i, ((lhs, rhs), mt) in enumerate(zip(stmts, a.m_rowtext)):
+            if mt == "none":
+                continue
+            if rhs.strip() != mt:
+                res.corr_disagreements += 1
+                res.violation("correspondence", f"{where}: text of {lhs}: implementation {rhs.strip()[:160]!r} != model text {mt[:160]!r}", case)
+                return
+        res.count("species rows compared as exact text", sum(1 for mt in a.m_rowtext if mt != "none"))
     for i, (lhs, rhs) in enumerate(stmts):
         try:
             c = ol.canon(*ol.parse_sum(rhs))
